@@ -455,8 +455,21 @@ def run_case(case):
             cnt["fingerprints_compared"] += 1
             f2 = deep_fp(o)
             if f2 != fps[j]:
-                bad("c10.parsed-object-mutated", f"operation {op} on object {i} changed the state of pool object {j} ({(texts + sys_texts)[j][:80]}): {first_diff(fps[j], f2)}", step)
+                # A change of internal state is a suspicion, not yet a violation (a lazily filled cache is none): the property speaks of printed forms,
+                # generability and later outputs.  The changed object is therefore compared with a FRESH parse of its text over a battery of observations.
+                diff = first_diff(fps[j], f2)
                 fps[j] = f2
+                cnt["state_changes_seen"] += 1
+                try:
+                    with time_limit(120):
+                        why = behaves_differently(o, (texts + sys_texts)[j], j >= n_mol, seeds)
+                except StepTimeout:
+                    why = None
+                    cnt["watchdog"] += 1
+                if why:
+                    bad("c10.parsed-object-mutated", f"operation {op} on object {i} changed the state of pool object {j} ({(texts + sys_texts)[j][:80]}): {diff}; and the object no longer behaves like a fresh parse of its text: {why}", step)
+                else:
+                    cnt["state_changes_without_observable_effect"] += 1
     cnt["histories"] += 1
     cnt.update({k: v for k, v in trace.take_counters().items() if k.startswith("contract.molgen")})
     cnt["evaluations"] = cnt["operations"]
@@ -467,6 +480,67 @@ def run_case(case):
         if seen[v["cls"]] <= 3:
             out.append(v)
     return {"viol": out, "nt": [f"history-{case['seed']}"] if nontrivial else [], "cnt": dict(cnt), "sample": {"pool": texts, "history_head": [list(h) for h in history[:10]]}}
+
+
+def _battery(obj, is_system, seeds):
+    """observations the property speaks about, taken from one object"""
+    import gbigsmiles
+
+    out = {}
+
+    def safe(name, f):
+        try:
+            out[name] = f()
+        except StepTimeout:
+            raise
+        except Exception as exc:
+            out[name] = f"<{type(exc).__name__}>"
+
+    safe("str", lambda: str(obj))
+    safe("noext", lambda: obj.generate_string(False))
+    safe("generable", lambda: bool(obj.generable))
+    if is_system:
+        for s_ in seeds[:2]:
+            safe(f"system{s_}", lambda: json.dumps(observe_system(obj, s_, limit=20), sort_keys=True))
+        return out
+    for s_ in seeds[:2]:
+        def gen_(s_=s_):
+            g = obj.generate(rng=W.spy(s_))
+            return (g.smiles, round(g.weight, 6), bool(g.fully_generated))
+        safe(f"generate{s_}", gen_)
+    from .c16 import rgraph_fp
+    from .c17 import graph_fp
+
+    safe("reaction_graph", lambda: repr(sorted(map(repr, rgraph_fp(obj.gen_reaction_graph())[1].items()))))
+    safe("atom_graph", lambda: repr(graph_fp(obj.gen_stochastic_atom_graph(expect_schulz_zimm_distribution=False).graph)))
+
+    def mirror_():
+        m = obj.gen_mirror()
+        if m is None:
+            return None
+        t = str(m)
+        try:
+            g = m.generate(rng=W.spy(seeds[0]))
+            return (t, g.smiles, round(g.weight, 6))
+        except StepTimeout:
+            raise
+        except Exception as exc:
+            return (t, f"<{type(exc).__name__}>")
+
+    safe("mirror", mirror_)
+    return out
+
+
+def behaves_differently(obj, text, is_system, seeds):
+    """-> None, or a description of the first observation in which `obj` differs from a fresh parse of `text`"""
+    import gbigsmiles
+
+    fresh = gbigsmiles.System(text) if is_system else gbigsmiles.Molecule(text)
+    a, b = _battery(obj, is_system, seeds), _battery(fresh, is_system, seeds)
+    for k in a:
+        if a[k] != b.get(k):
+            return f"{k}: {str(a[k])[:160]} vs fresh {str(b.get(k))[:160]}"
+    return None
 
 
 def first_diff(a, b, path=""):
